@@ -1,5 +1,5 @@
 Require Import Extraction ExtrOcamlBasic ExtrOCamlFloats.
 Require Import Base.Prelude C19.GeneratedFacts C19.Model.
 Extraction Language OCaml.
-Extraction "model.ml" f_euclid f_manhattan f_great_circle f_get_distance f_calc_cellsize f_calc_res
+Extraction "model.ml" f_euclid f_manhattan f_great_circle f_get_distance f_calc_cellsize f_calc_res f_calc_cellsize_full
   circle_kernel annulus_kernel ellipse_kernel annulus_hw splits.
